@@ -450,6 +450,9 @@ def main(argv=None):
     vcls.check_schema(schema)
     validator = vcls(schema, format_checker=jsonschema.FormatChecker())
     labels = common.Labels()
+    # histories (harness/c13_hist.py): the pristine snapshot is taken here, before anything of aw_core has been called
+    from . import c13_hist
+    hist_runner = c13_hist.make_runner(sys.modules[__name__], Event, _timestamp_parse, validator)
 
     # ---- (0) the real _timestamp_parse on all 10^6 microsecond values, two zones
     for tz, base in ((timezone(timedelta(minutes=345)), datetime(2020, 9, 13, 18, 11, 40)),
@@ -517,16 +520,24 @@ def main(argv=None):
         if ts + dur < 2**52 and w != [0, ts, dur]:
             ck.failing_input("C13:sqlite-codec", f"sqlite helpers: ({ts},{dur}) read back as {w}", {"ts_us": ts, "dur_us": dur})
 
+    # ---- (4) histories: sequences of constructions / assignments / round trips in one process, look-alike timestamps
+    hterms, hwires, hdescs = c13_hist.run(ck, hist_runner)
+    hist_runner.close()
+
     if proved:
         try:
-            model = fc.run_cases("C13", IMPORTS, terms + [t for t, _, _ in fstream] + cterms, tag="ev")
+            model = fc.run_cases("C13", IMPORTS, terms + [t for t, _, _ in fstream] + cterms + hterms, tag="ev")
         except Exception as ex:  # noqa
             ck.broken.append("in-Coq evaluation of the cases failed: " + str(ex)[:400])
             model = None
         if model is not None:
             m_ev = model[:len(terms)]
             m_fl = model[len(terms):len(terms) + len(fstream)]
-            m_co = model[len(terms) + len(fstream):]
+            m_co = model[len(terms) + len(fstream):len(terms) + len(fstream) + len(cterms)]
+            for term, mo, io, desc in zip(hterms, model[len(terms) + len(fstream) + len(cterms):], hwires, hdescs):
+                if mo != io:
+                    ck.disagreement("event-history", f"{desc}: {term[:300]}: model {mo[:40]} impl {io[:40]}",
+                                    {"term": term, "model": mo, "impl": io, "history": desc})
             for case, term, mo, io in zip(cases, terms, m_ev, impl):
                 if mo != io:
                     ck.disagreement("event", f"{term[:300]}: model {mo[:40]} impl {io[:40]}",
